@@ -67,6 +67,39 @@ package mongokit
 //@   ensures [C10 name=value-or-element] imp(knownOp(op), (result == nil) ==
 //@     ((is(value, VArr) && exists(k, 0, len(spec.arr(value)), spec.witness(k) && compHolds(op, spec.arr(value)[k], v))) || (!multi && compHolds(op, value, v))))
 
+// $in is a disjunction of equalities over the operand array (per value the path
+// fans out to); $nin is its exact negation with hard errors passed through.
+//@ func matchIn$1
+//@   tags C10
+//@   uses order
+//@   requires spec.wfVal(field) && spec.wfVal(v)
+//@   ensures [C10 name=disjunction-of-equalities] imp(is(v, VArr), (result == nil) == exists(k, 0, len(spec.arr(v)), spec.witness(k) && spec.cmp(field, spec.arr(v)[k]) == 0))
+//@   ensures [C10 name=match-or-not] imp(is(v, VArr), result == nil || result == ErrNotMatched)
+//@   ensures [C10 name=operand-must-be-array] imp(!is(v, VArr), result != nil && result != ErrNotMatched)
+//@   loop 0 invariant is(v, VArr) && forall(j, 0, rangeindex + 1, spec.cmp(field, spec.arr(v)[j]) != 0) && spec.witness(rangeindex + 1)
+//@ func matchIn
+//@   tags C10
+//@   pure docs
+//@   uses access order
+//@   requires doc != nil && spec.wfVal(spec.VDoc(*doc)) && spec.wfVal(v)
+//@   ensures [C10 name=match-or-not] imp(is(v, VArr), result == nil || result == ErrNotMatched)
+//@ func matchNin$1
+//@   tags C10
+//@   requires doc != nil && spec.wfVal(spec.VDoc(*doc)) && spec.wfVal(v)
+//@   ensures [C10] result == pure.matchIn(ctx, doc, name, path, v)
+//@ func matchNin
+//@   tags C10
+//@   requires doc != nil && spec.wfVal(spec.VDoc(*doc)) && spec.wfVal(v)
+//@   let in = pure.matchIn(ctx, doc, name, path, v)
+//@   ensures [C10 name=exact-negation] (result == nil) == (in == ErrNotMatched) && (result == ErrNotMatched) == (in == nil)
+//@   ensures [C10 name=errors-pass] imp(in != nil && in != ErrNotMatched, result == in)
+
+// $mod: the per-value test divides by the parsed divisor; matchMod rejects a zero
+// divisor (after truncating doubles) before it builds the test.
+//@ func matchMod$1
+//@   tags C20 C10
+//@   requires [C20,C10 name=nonzero-divisor] divisor != 0
+
 //@ func matchNe$1
 //@   tags C10
 //@   requires doc != nil && spec.wfVal(spec.VDoc(*doc)) && spec.wfVal(v)
@@ -256,6 +289,12 @@ package mongokit
 //@   ensures [ghostdef] failTaints(c)
 //@   ensures [C02] imp(err == nil, result0 != nil)
 //@   ensures [C15,C07 name=coherent] imp(err == nil, coherent(c))
+//@   let base0 = ite(sort != nil && len(*sort) > 0, spec.sortedBy(c.Documents.List, *sort, docs()), spec.seqId(c.Documents.List))
+//@   let F0 = spec.filtered(base0, *query, docs())
+//@   let lo0 = ite(skip < len(F0), skip, len(F0))
+//@   let hi0 = ite(limit > 0 && skip + limit < len(F0), skip + limit, len(F0))
+//@   ensures [C13,C01 name=window] imp(err == nil, len(result0.Matched) == old(hi0 - lo0) && forall(i, 0, len(result0.Matched), result0.Matched[i] == old(F0[lo0 + i])))
+//@   ensures [C13,C20 name=negative-skip-rejected] imp(skip < 0, err != nil)
 //@   ensures [C08,C01 name=changes-counted] imp(err == nil, len(result0.Changes) == len(result0.Modified))
 //@   ensures [C08,C01 name=changes-paired] imp(err == nil && len(result0.Matched) > 0,
 //@     forall(k, 0, len(result0.Modified), any(i, Int, 0 <= i && i < len(newList) && result0.Modified[k] == newList[i] && result0.Changes[k] == changes[i])))
@@ -276,6 +315,8 @@ package mongokit
 //@   loop 6 invariant coherent(c) && (cap(modified) == 0 || fresh(modified)) && (cap(filteredChanges) == 0 || fresh(filteredChanges)) && len(changes) == len(newList) && len(newList) == len(list)
 //@   loop 6 invariant fresh(newList) && fresh(changes) && (cap(modified) == 0 || (modified.base != newList.base && modified.base != changes.base)) && (cap(filteredChanges) == 0 || (filteredChanges.base != newList.base && filteredChanges.base != changes.base && filteredChanges.base != modified.base))
 //@   loop 6 invariant forall(k, 0, len(newList), newList[k] == before(newList[k])) && forall(k, 0, len(changes), changes[k] == before(changes[k]))
+//@   loop 0 invariant len(list) == old(hi0 - lo0) && forall(i, 0, len(list), list[i] == old(F0[lo0 + i]))
+//@   loop 6 invariant forall(k, 0, len(list), list[k] == before(list[k])) && len(list) > 0 && fresh(list) && (cap(modified) == 0 || modified.base != list.base) && (cap(filteredChanges) == 0 || filteredChanges.base != list.base)
 //@   loop 6 invariant len(filteredChanges) == len(modified)
 //@   loop 6 invariant forall(k, 0, len(modified), any(i, Int, 0 <= i && i <= rangeindex && modified[k] == newList[i] && filteredChanges[k] == changes[i]))
 // Upsert: the document built from the query (and the replacement or update) is
@@ -311,12 +352,21 @@ package mongokit
 //@   ensures [ghostdef] failTaints(c)
 //@   ensures [C02] imp(err == nil, result0 != nil)
 //@   ensures [C15 name=coherent] imp(err == nil, coherent(c))
+//@   let base0 = ite(sort != nil && len(*sort) > 0, spec.sortedBy(c.Documents.List, *sort, docs()), spec.seqId(c.Documents.List))
+//@   let F0 = spec.filtered(base0, *query, docs())
+//@   let lo0 = ite(skip < len(F0), skip, len(F0))
+//@   let hi0 = ite(limit > 0 && skip + limit < len(F0), skip + limit, len(F0))
+//@   ensures [C13,C01 name=window] imp(err == nil, len(result0.Matched) == old(hi0 - lo0) && forall(i, 0, len(result0.Matched), result0.Matched[i] == old(F0[lo0 + i])))
+//@   ensures [C13,C20 name=negative-skip-rejected] imp(skip < 0, err != nil)
 //@   ensures [C15,C01 name=exactly-matched-removed] imp(err == nil, all(d, Ref, has(c.Documents.Index, d) == (old(has(c.Documents.Index, d)) && !inList(result0.Matched, len(result0.Matched), d))))
 //@   loop 0 invariant all(n, Str, imp(has(c.Indexes, n), wfIndex(c.Indexes[n]) && all(d, Ref, ghost.cov[c.Indexes[n]][d] == (has(c.Documents.Index, d) && !inList(list, rangeindex + 1, d)))))
 //@   loop 1 invariant all(n, Str, imp(has(c.Indexes, n), wfIndex(c.Indexes[n]) && all(d, Ref, imp(d != list[rangeindex0 + 1], ghost.cov[c.Indexes[n]][d] == (has(c.Documents.Index, d) && !inList(list, rangeindex0 + 1, d))))))
 //@   loop 1 invariant all(n, Str, imp(has(c.Indexes, n) && visited(n), !ghost.cov[c.Indexes[n]][list[rangeindex0 + 1]]))
 //@   loop 2 invariant c.Documents == old(c.Documents) && c.Indexes == old(c.Indexes) && wfDocs(c.Documents) && ownDocs(c.Documents) && (len(list) == 0 || (fresh(list) && list.base != c.Documents.List.base))
 //@   loop 2 invariant forall(k, 0, len(list), list[k] == before(list[k]))
+//@   loop 0 invariant len(list) == old(hi0 - lo0)
+//@   loop 0 invariant forall(i, 0, len(list), list[i] == old(F0[lo0 + i]))
+//@   loop 2 invariant len(list) == old(hi0 - lo0) && forall(i, 0, len(list), list[i] == old(F0[lo0 + i]))
 //@   loop 2 invariant all(d, Ref, has(c.Documents.Index, d) == (old(has(c.Documents.Index, d)) && !inList(list, rangeindex + 1, d)))
 //@   loop 2 invariant all(n, Str, has(c.Indexes, n) == old(has(c.Indexes, n)) && c.Indexes[n] == old(c.Indexes[n]))
 // Build adds every document of the list; CreateIndex (the method) publishes a
